@@ -167,6 +167,16 @@ def run(ctx: Ctx):
             rig_ok = False
             ctx.oblige(f"rig:draw-ranges:{name}", "correspondence", False, p)
         a, b = rig.normalise(case, impl, model)
+        # property oracle on the implementation alone, licensed by theorem C19_tap3_validated_never_raises: a TAP003 whose
+        # settings were accepted and whose responses are well formed (a failure carries a reason, a success the login data)
+        # never raises, whatever the draws and responses
+        if kind == "tap3" and impl and impl[0].startswith("ok") and all(_wf_resp(st["resp"]) for st in case["steps"]):
+            ctx.count("tap3:validated+well-formed cases (no-raise oracle applies)")
+            j = next((j for j, l in enumerate(impl) if l == "raised"), -1)
+            if j >= 1:
+                ctx.violation({"kind": "oracle", "agent": "tap3", "what": "validated-agent-raised"},
+                              f"TAP003 ({name}) accepted its settings, got only well-formed responses and raised in step {j - 1}",
+                              {"case": _truncate(case, j), "from": name})
         # property oracle evaluated on the implementation alone
         if kind in ("prob", "probn"):
             bad = _oracle_prob(case, a)
@@ -203,6 +213,11 @@ def run(ctx: Ctx):
         sc = None
     if sc is not None:
         sc.run_all(ctx)
+
+
+def _wf_resp(r: dict) -> bool:
+    """`Tap3.Resp.wf`."""
+    return (r["ok"] or r.get("hasReason", True)) and ((not r["ok"]) or r.get("hasLoginData", True))
 
 
 def _nontrivial(kind: str, case: dict, impl: List[str]) -> bool:
